@@ -50,7 +50,10 @@ func streamFees(sink *Sink, rng *rand.Rand, tier string, scratch string) {
 					h.OpSwap(mode{}, ins, h.freshOutputs(cashu.AmountSplit(sum)))
 				}
 				// the exact fee is accepted
-				h.OpSwap(mode{}, ins, h.honestSwapOutputs(ins))
+				if _, err := h.OpSwap(mode{}, ins, h.honestSwapOutputs(ins)); err != nil && sum > due && (classify(err) == 30 || classify(err) == 29) {
+					h.sink.Violate("exact-fee-swap-refused", fmt.Sprintf("inputs worth %d owing a fee of %d (each its own keyset's input_fee_ppk, rounded up once) were refused for %d of outputs: %v", sum, due, sum-due, err),
+						LL(h.items).String(), nil)
+				}
 			}
 			new1 := h.activeHandle()
 			try(pick(new1, 1))
